@@ -3,6 +3,7 @@ C01 — property theorems (statements, short proofs from the lemmas, non-vacuity
 Helper lemmas: Proofs.lean (arithmetic, decision), Run.lean (histories + ghosts), Window.lean (rolling window).
 -/
 import GoZero.C01.Conc
+import GoZero.C01.Sites
 namespace GoZero.C01
 
 /-! ## 1. admission law -/
@@ -161,7 +162,30 @@ example : (((List.replicate 12 Mark.fail).foldl (fun b m => b.mark 9 m) (Breaker
 
 /-! ## 5. "the calls recorded in the preceding 10 s window" -/
 
-/-- **The window the breaker decides on is the log of the calls of the preceding 40 aligned 250 ms buckets.**
+/-- **Any rolling window is a view of its log** — for EVERY size `n ≥ 1` and interval `d ≥ 1` (the code of
+core/collection/rollingwindow.go is generic; nothing here uses the breaker's 40 × 250 ms).  After any finite
+history of `Add`s and time gaps on `NewRollingWindow(…, n, d)` created at `t0`, at any time `now` not before the
+last event, the buckets `Reduce` visits are, oldest first, exactly the aggregates of all values ever added whose
+time falls into the aligned bucket number `idx(now) − (n−1) + i` (`idx(t) = ⌊(t − t0)/d⌋`): nothing older is
+counted, nothing inside is missing, and the `span` youngest (still empty) buckets are skipped. -/
+theorem rolling_window_is_log (n d : Nat) (hn : 1 ≤ n) (hd : 1 ≤ d) (t0 : Nat) (ops : List WOp) (now : Nat)
+    (hnow : ((WSys.init n d t0).run ops).now ≤ now) :
+    ((WSys.init n d t0).run ops).w.visible now =
+      (List.range (n - ((WSys.init n d t0).run ops).w.span now)).map fun i =>
+        Lget (logBucketD d t0 ((WSys.init n d t0).run ops).log) (bucketIdxD d t0 now) (n - 1 - i) :=
+  visible_of_inv n d t0 _ _ _ (WSys.inv_run n d hn hd t0 ops) now hnow
+
+/-- non-vacuity on an extreme geometry: a window of ONE bucket of 7 ns; a value added at t0+6 is visible until
+t0+6 (same bucket) and gone at t0+7 -/
+example : (((WSys.init 1 7 3).run [.tick 6, .add .fail]).w.visible 9).map (·.sum) = [1]
+    ∧ (((WSys.init 1 7 3).run [.tick 6, .add .fail]).w.visible 10) = [] := by decide
+
+/-- non-vacuity: 3 buckets of 5 ns, adds at t0, t0+5, t0+14; at t0+14 all three buckets are visible, oldest first -/
+example : (((WSys.init 3 5 100).run [.add .succ, .tick 5, .add .fail, .add .fail, .tick 9, .add .drop]).w.visible 114).map
+    (fun b => (b.sum, b.succ, b.fail, b.drop)) = [(1, 1, 0, 0), (2, 0, 2, 0), (1, 0, 0, 1)] := by decide
+
+/-- **The window the breaker decides on is the log of the calls of the preceding 40 aligned 250 ms buckets**
+(corollary of the generic refinement, instantiated at n = 40, d = 250 ms).
 After any finite history (any entry points, outcomes, draws, gaps from 0 to several windows), at any time
 `now` not before the last event, the buckets `history()` reduces over are, oldest first, exactly the aggregates
 of all marks ever recorded whose time falls into the aligned bucket number `idx(now) − 39 + i`
@@ -171,13 +195,8 @@ because nothing was recorded since `lastTime`, and are skipped.) -/
 theorem window_is_log (t0 : Nat) (ops : List Op) (now : Nat) (hnow : ((Sys.init t0).run ops).now ≤ now) :
     ((Sys.init t0).run ops).b.rw.visible now =
       (List.range (40 - ((Sys.init t0).run ops).b.rw.span now)).map fun i =>
-        Lget (logBucket t0 ((Sys.init t0).run ops).log) (bucketIdx t0 now) (39 - i) := by
-  obtain ⟨cur, hr, hl, ht⟩ := Sys.winInv_run t0 ops
-  have hv := visible_spec _ t0 cur _ hr now (Nat.le_trans hl hnow)
-  have hlt := hr.lt
-  have hidx : bucketIdx t0 now = cur + (now - ((Sys.init t0).run ops).b.rw.lastTime) / 250000000 := by
-    unfold bucketIdx intervalNs; omega
-  rw [hv, hidx]
+        Lget (logBucket t0 ((Sys.init t0).run ops).log) (bucketIdx t0 now) (39 - i) :=
+  visible_of_inv nBuckets intervalNs t0 _ _ _ (Sys.winInv_run t0 ops) now hnow
 
 /-- the totals the admission law is stated on are sums over those log buckets -/
 theorem history_totals (b : Breaker) (now : Nat) :
@@ -189,10 +208,11 @@ theorem history_totals (b : Breaker) (now : Nat) :
 /-- every log bucket satisfies `Sum = Success + Failure + Drop`: "non-accepted" is failures plus rejections -/
 theorem logBucket_balanced (t0 : Nat) (log : List (Nat × Mark)) (j : Nat) :
     (logBucket t0 log j).sum = (logBucket t0 log j).succ + (logBucket t0 log j).fail + (logBucket t0 log j).drop := by
+  unfold logBucket at *
   induction log with
   | nil => rfl
   | cons e rest ih =>
-    simp only [logBucket]
+    simp only [logBucketD]
     split
     · exact bucket_add_balanced _ _ ih
     · exact ih
@@ -235,17 +255,120 @@ theorem admitMark_table (e : Entry) (o : Outcome) : marksOf (doReqEvents .pass e
 /-- under any schedule the window still is the log of the preceding 40 aligned buckets -/
 theorem conc_window_is_log (env : Env) (t0 : Nat) (c : Cfg) (h : Reach env t0 c) (now : Nat) (hnow : c.clock ≤ now) :
     c.rw.visible now =
-      (List.range (40 - c.rw.span now)).map fun i => Lget (logBucket t0 c.log) (bucketIdx t0 now) (39 - i) := by
-  obtain ⟨cur, hr, hl, ht⟩ := wininv_reach env t0 c h
-  have hv := visible_spec _ t0 cur _ hr now (Nat.le_trans hl hnow)
-  have hlt := hr.lt
-  have hidx : bucketIdx t0 now = cur + (now - c.rw.lastTime) / 250000000 := by
-    simp only [] at hlt hl
-    unfold bucketIdx intervalNs; omega
-  rw [hv, hidx]
+      (List.range (40 - c.rw.span now)).map fun i => Lget (logBucket t0 c.log) (bucketIdx t0 now) (39 - i) :=
+  visible_of_inv nBuckets intervalNs t0 _ _ _ (wininv_reach env t0 c h) now hnow
 
 /-- non-vacuity: two goroutines interleave — thread 0 takes its snapshot, 7 ns pass, thread 1 takes its own -/
 example : ∃ c, Reach ⟨fun _ => 0, fun _ => ⟨false, false⟩, fun _ => .errU⟩ 3 c ∧ c.pc 0 = 1 ∧ c.pc 1 = 1 ∧ c.clock = 10 :=
   ⟨_, Reach.step _ _ 1 (Reach.tick _ 7 (Reach.step _ _ 0 Reach.init rfl)) rfl, rfl, rfl, rfl⟩
+
+/-! ## 7. the call sites that wrap the breaker -/
+
+/-- zrpc/internal/codes/accept.go as a table: exactly DeadlineExceeded(4), ResourceExhausted(8), Unimplemented(12),
+Internal(13), Unavailable(14), DataLoss(15) count against the callee; every other code (in particular OK, Canceled,
+Unknown, InvalidArgument, NotFound, AlreadyExists, PermissionDenied, Unauthenticated …) is acceptable. -/
+theorem codeAcceptable_table (c : Nat) :
+    codeAcceptable c = false ↔ c = 4 ∨ c = 8 ∨ c = 12 ∨ c = 13 ∨ c = 14 ∨ c = 15 := by
+  simp only [codeAcceptable, cDeadlineExceeded, cInternal, cUnavailable, cDataLoss, cUnimplemented, cResourceExhausted]
+  by_cases h : c = 4 ∨ c = 13 ∨ c = 14 ∨ c = 15 ∨ c = 12 ∨ c = 8
+  · simp only [h, decide_true, Bool.not_true, true_iff]; omega
+  · simp only [h, decide_false, Bool.not_false, Bool.true_eq_false, false_iff]; omega
+
+/-- **Every site, every request: exactly one of Accept / Reject per admitted request, chosen by the site's predicate;
+exactly one drop and no execution per rejected request.**  `rest`: Accept iff the recorded status is < 500 (whether or
+not the handler panics: the deferred function resolves the promise exactly once and the panic propagates); the
+`doReq` sites: Accept iff the site's predicate holds of the request's error, a panic is a Reject and is re-raised. -/
+theorem site_exactly_one (s : Site) (q : SiteReq) :
+    (smarksOf (siteEvents s .reject q) = [.drop] ∧ (siteEvents s .reject q).count .ranReq = 0
+      ∧ (siteEvents s .reject q).getLast? = some (.returned s.rejectRet))
+    ∧ (smarksOf (siteEvents s .pass q) = [if s ≠ .rest ∧ q.panics then .fail else if s.pred q then .succ else .fail]
+      ∧ (siteEvents s .pass q).count .ranReq = 1
+      ∧ (siteEvents s .pass q).getLast? = some (if q.panics then .repanicked else .returned (s.admitRet q))) := by
+  refine ⟨⟨rfl, rfl, rfl⟩, ?_⟩
+  cases s <;> by_cases hp : q.panics = true <;> simp [siteEvents, smarksOf, hp, Site.admitRet] <;>
+    (try split) <;> simp_all
+
+/-- a nil result satisfies the predicate of every `doReq` site -/
+theorem pred_nil (s : Site) (hs : s ≠ .rest) (q : SiteReq) (h : q.err = .none) : s.pred q = true := by
+  cases s <;> first
+    | exact absurd rfl hs
+    | simp [Site.pred, h, ErrClass.grpcCode, codeAcceptable, sqlAcceptable, cDeadlineExceeded, cInternal, cUnavailable,
+        cDataLoss, cUnimplemented, cResourceExhausted]
+
+theorem site_marks_pass (s : Site) (hs : s ≠ .rest) (q : SiteReq) :
+    smarksOf (siteEvents s .pass q) = [if q.panics then .fail else if s.pred q then .succ else .fail] := by
+  cases s <;> first
+    | exact absurd rfl hs
+    | (by_cases hp : q.panics = true <;> simp [siteEvents, smarksOf, hp])
+
+theorem doReq_marks_pass (o : Outcome) :
+    marksOf (doReqEvents .pass ⟨false, true⟩ o) = [if o = .panic then .fail else if acceptable true o then .succ else .fail] := by
+  cases o <;> decide
+
+/-- the `doReq` sites are instances of the generic decision table (`accounting_admitted` / `accounting_rejected`):
+what they record is what `DoWithAcceptable` records for the outcome `ok / acceptable error / other error / panic`
+the site's predicate assigns to the request. -/
+theorem site_refines_doReq (s : Site) (hs : s ≠ .rest) (v : Verdict) (q : SiteReq) :
+    smarksOf (siteEvents s v q) = marksOf (doReqEvents v ⟨false, true⟩ (s.outcome q)) := by
+  cases v
+  · rw [site_marks_pass s hs q, doReq_marks_pass]
+    unfold Site.outcome
+    by_cases hp : q.panics = true
+    · simp [hp]
+    · by_cases hn : q.err = .none
+      · simp [hp, hn, pred_nil s hs q hn, acceptable]
+      · by_cases hq : s.pred q = true <;> simp [hp, hn, hq, acceptable]
+  · cases s <;> simp [siteEvents, smarksOf, doReqEvents, marksOf]
+
+/-- the server side never blames the client's own deadline on the callee … it does: `context.DeadlineExceeded` and a
+nested open breaker are failures on the server side even though their gRPC code (Unknown) is acceptable -/
+theorem server_rejects_deadline_and_open_breaker (q : SiteReq) (h : q.err = .ctxDeadline ∨ q.err = .brkOpen) :
+    Site.zrpcServerUnary.pred q = false ∧ Site.zrpcServerStream.pred q = false ∧ Site.zrpcClient.pred q = true := by
+  rcases h with h | h <;> simp [Site.pred, h, ErrClass.grpcCode, codeAcceptable, cUnknown, cDeadlineExceeded, cInternal,
+    cUnavailable, cDataLoss, cUnimplemented, cResourceExhausted]
+
+/-- non-vacuity: a 499 is an Accept, a 500 a Reject, and a rejected request writes 503 without running the handler -/
+example : siteEvents .rest .pass { code := 499 } = [.ranReq, .mark .succ, .returned .same]
+    ∧ siteEvents .rest .pass { code := 500 } = [.ranReq, .mark .fail, .returned .same]
+    ∧ siteEvents .rest .reject { code := 200 } = [.mark .drop, .returned .http503] := by decide
+
+/-! ## 8. one breaker per name (breakers.go) -/
+
+theorem Registry.find_set_self (r : Registry) (name : String) (b : Breaker) : (r.set name b).find name = some b := by
+  induction r with
+  | nil => simp [Registry.set, Registry.find]
+  | cons p rest ih =>
+    obtain ⟨n, b0⟩ := p
+    by_cases h : n = name <;> simp [Registry.set, Registry.find, h, ih]
+
+theorem Registry.find_set_other (r : Registry) (name other : String) (b : Breaker) (h : other ≠ name) :
+    (r.set name b).find other = r.find other := by
+  induction r with
+  | nil => simp [Registry.set, Registry.find, h.symm]
+  | cons p rest ih =>
+    obtain ⟨n, b0⟩ := p
+    by_cases h1 : n = name
+    · subst h1
+      have : ¬ n = other := fun e => h e.symm
+      simp [Registry.set, Registry.find, this]
+    · by_cases h2 : n = other
+      · subst h2; simp [Registry.set, Registry.find, h1]
+      · simp [Registry.set, Registry.find, h1, h2, ih]
+
+/-- **calls under one name never touch the breaker of another name**, and they act on the breaker that
+`GetBreaker(name)` hands out (created at first use, the same one ever after). -/
+theorem named_isolation (r : Registry) (name other : String) (now : Nat) (f : Breaker → Breaker) (h : other ≠ name) :
+    (r.with name now f).find other = r.find other
+    ∧ (r.with name now f).find name = some (f (r.get name now).1)
+    ∧ (∀ b, r.find name = some b → (r.get name now).1 = b) := by
+  refine ⟨?_, Registry.find_set_self _ _ _, ?_⟩
+  · unfold Registry.with
+    rw [Registry.find_set_other _ _ _ _ h]
+    unfold Registry.get
+    cases hf : r.find name with
+    | some b => rfl
+    | none => exact Registry.find_set_other _ _ _ _ h
+  · intro b hb
+    simp [Registry.get, hb]
 
 end GoZero.C01
